@@ -194,9 +194,12 @@ inductive HeaderErr where
 def chainIdCharOk (b : UInt8) : Bool :=
   (97 ≤ b && b ≤ 122) || (65 ≤ b && b ≤ 90) || (48 ≤ b && b ≤ 57) || b == 45 || b == 95 || b == 46
 
+/-- `tendermint::chain::Id::try_from` rejects this string. -/
+def chainIdBad (c : Bytes) : Bool := c.isEmpty || c.length > 50 || !(c.all chainIdCharOk)
+
 /-- `SequencerBlockHeader::try_from_raw`. -/
 def decodeHeader (r : HeaderRaw) : Except HeaderErr Header :=
-  if r.chainId.isEmpty || r.chainId.length > 50 || !(r.chainId.all chainIdCharOk) then .error .invalidChainId
+  if chainIdBad r.chainId then .error .invalidChainId
   else if r.height ≥ 2 ^ 63 then .error .invalidHeight
   else match r.time with
     | none => .error .timeNotSet
